@@ -44,6 +44,11 @@ witnesses are replayed on the real code from corpus/C05/.
   exactly on client records created by a SUCCESSFUL rfbReverseConnection, whatever reverse
   connections were attempted (failed ones, `Ev.reverseFailed`, have no effect at all); hence
   `auth_sound` for every inbound client, stated with the history (`origin`) instead of the flag.
+* `offered_only_registered`, `unregistered_type_refused` (with `handlers_follow_history` in
+  Auth/Process.lean) — the registered-handler list holds exactly the handlers whose last
+  (un)registration in the history is a registration, without duplicates, whatever the order of
+  registering, re-registering and unregistering (head/middle/tail); so a type that is not currently
+  registered is never in an offered list and choosing it closes the connection.
 * `step_sound` — one call of rfbProcessClientMessage with ANY registered handlers (TightVNC type 16,
   application handlers satisfying `AppOk`) admits a connection that has to authenticate only with
   the proof: no path through a registered security type reaches INITIALISATION without it.
@@ -232,6 +237,47 @@ theorem no_type_skips_auth (env : Env) (scr : Screen) (hs : List Handler) (legac
       apply ht
       exact UInt8.toNat_inj.mp (by simpa using h)
     simp [processSecurityType, hb, hne, hnone, close, ht]
+
+/-- **The offered types are the built-in one and the currently registered ones**: after any history of
+events — handlers registered, registered again, unregistered from the head, middle or tail of the
+list, in any order, connections in between — every security type in the list sent to a new 3.7+
+client is its built-in type or the type of a handler whose LAST (un)registration in the history is a
+registration (`regAfter false h evs`).  A type that was unregistered and not registered since is
+never offered. -/
+theorem offered_only_registered (env : Env) (screens : List Screen) (evs : List Ev) (t x : Nat)
+    (hx : x ∈ offered true (run true env screens {} evs).handlers (run true env screens {} evs).legacy t) :
+    x = t ∨ ∃ h : Handler, h.type = x ∧ regAfter false h evs = true := by
+  have hist := (handlers_follow_history true env screens evs {} List.nodup_nil).2
+  simp only [offered, if_true] at hx
+  have hx' := List.mem_of_mem_take hx
+  rcases List.mem_cons.mp hx' with h | h
+  · exact Or.inl h
+  · obtain ⟨hd, hmem, hty⟩ := List.mem_map.mp h
+    exact Or.inr ⟨hd, hty, by simpa using (hist hd).mp hmem⟩
+
+/-- … and never accepted: a client in state SECURITY_TYPE that chooses a type which is neither its
+built-in type nor the type of a handler registered at that moment (per the history) is closed with
+nothing written and stays in SECURITY_TYPE — on any screen, password or not. -/
+theorem unregistered_type_refused (env : Env) (screens : List Screen) (evs : List Ev) (scr : Screen)
+    (c : Conn) (t : UInt8) (rest : List UInt8) (ho : c.isOpen = true) (hst : c.st = .sec)
+    (hbuf : c.inbuf = t :: rest) (hbi : t.toNat ≠ builtinType scr c)
+    (hnone : ∀ h : Handler, h.type = t.toNat → regAfter false h evs = false) :
+    let s := run true env screens {} evs
+    let c' := (procConn true env scr s.handlers s.legacy s.rand c).1
+    c'.isOpen = false ∧ c'.st = .sec ∧ c'.sent = c.sent := by
+  have hist := (handlers_follow_history true env screens evs {} List.nodup_nil).2
+  have hfind : (run true env screens {} evs).handlers.find? (fun h => h.type == t.toNat) = none := by
+    rw [List.find?_eq_none]
+    intro h hm hty
+    have h1 : regAfter false h evs = true := by simpa using (hist h).mp hm
+    have h2 := hnone h (by simpa using hty)
+    rw [h1] at h2; cases h2
+  have h1 : ¬ (!c.isOpen) = true := by simp [ho]
+  have h3 : ¬ c.inbuf.length < need c.st := by rw [hst, need_sec, hbuf]; simp
+  have hb : ∀ d : Conn, d.reverse = c.reverse → builtinType scr d = builtinType scr c := by
+    intro d hd; simp [builtinType, hd]
+  simp only [procConn, if_neg h1, hst, dispatch, need_sec, hbuf]
+  simp [processSecurityType, hb, hbi, hfind, close]
 
 /-- **Completeness, first half (3.7 and later)**: a new inbound connection `cid` to a password
 screen that sends a version message parsed as 3.`minor` with `minor ≥ 7`, then the byte 2, receives
@@ -520,6 +566,17 @@ example :
     ((getConn s 6).map (fun c => (c.origin, c.reverse, c.st, c.isOpen, c.sent)) =
       some (.inbound, false, .sec, false, [.secTypes [2], .version])) ∧
     ((getConn s 5).map (fun c => (c.origin, c.reverse, c.st)) = some (.reverse, true, .normal)) := by
+  decide
+
+/-- the order of seeded change C19-7: TightVNC registered, an application handler registered after it,
+the application handler unregistered, TightVNC unregistered, the application handler registered
+again — only the application handler is registered, and a new client is offered [2, 77] -/
+example :
+    let evs : List Ev := [.register .tight, .register (.app 77), .register (.app 5), .unregister (.app 77),
+      .unregister .tight, .register (.app 77), .register (.app 77), .unregister (.app 9)]
+    let s := run true exEnv exScreens {} evs
+    s.handlers = [.app 77, .app 5] ∧ offered true s.handlers s.legacy 2 = [2, 77, 5] ∧
+    regAfter false .tight evs = false ∧ regAfter false (.app 77) evs = true := by
   decide
 
 /-- asking for "no authentication" inside the TightVNC negotiation on a password screen is refused -/
